@@ -72,6 +72,12 @@ def gen_cases(rng, n):
                 c["low"], c["high"] = (None if k % 4 == 0 else -abs(loc) - float(rng.uniform(0.5, 3)) * scale), 0.0
             lo = c["low"] if c["low"] is not None else loc - 6 * scale
             hi = c["high"] if c["high"] is not None else loc + 8 * scale
+        if kind == "trunc" and k % 9 == 2:
+            # a one-sided bound far in the upper tail (10–12 σ above loc): the stated bound, not a rounder one, is the support's edge
+            c["loc"] = loc = float(rng.uniform(-3, 3)) * scale
+            c["low"], c["high"] = loc + float(rng.uniform(10.2, 11.8)) * scale, None
+            lo, hi = c["low"], c["low"] + 3 * scale
+            c["far_tail"] = True
         if kind == "gaussian" and k % 6 == 0:
             # an integer-typed location with a non-integer width
             c["loc"] = loc = int(rng.integers(-50, 50))
@@ -80,6 +86,8 @@ def gen_cases(rng, n):
             lo, hi = loc - 5 * scale, loc + 5 * scale
         w = hi - lo
         xs = [float(rng.uniform(lo, hi)) for _ in range(3)] + [lo - float(rng.uniform(0.05, 2)) * w, hi + float(rng.uniform(0.05, 2)) * w]
+        if kind == "trunc" and k % 9 == 2:
+            xs[3] = lo - 0.1 * scale            # just outside the stated support, still more than 10 σ above loc
         c["xs"] = xs
         cases.append(c)
     return cases
@@ -258,6 +266,10 @@ def evaluate(ctx, cases, deep_every=4):
         if a["keys"] != [c.get("name", "flux") + c["suffix"]]:
             diffs.append(f"helper defined keys {a['keys']}")
         for x, m, l64 in zip(c["xs"], ms, a["logp"]):
+            if c.get("far_tail") and m["inside"]:
+                # the model's Float evaluation forms 1 − Φ(z) and loses the upper tail beyond ~8 σ (a limit of the executable
+                # instance, not of the theorems, which are over ℝ): these points are judged by the scipy oracle below only
+                continue
             if np.isfinite(l64) and np.isfinite(m["logp"]):
                 if not close(l64, m["logp"], 1e-9, 1e-9):
                     diffs.append(f"log_prob({x:.6g}) real {l64!r} model {m['logp']!r}")
